@@ -398,10 +398,7 @@ func (x *ctx) run(j *job, c *Case, wantDigest bool) (res result) {
 	}
 	// ---- compare
 	di := j.dstCells(c)
-	vEqual := false
-	if eb, ok := back.(*emuBacking); ok {
-		vEqual = bytes.Equal(eb.st.Wavefront.VRegFile, asBytes(model.VGPR))
-	}
+	vEqual := back.vgprEqual(model.VGPR)
 	back.read(&x.snap, !vEqual)
 	s := &x.snap
 	h := sha256.New()
